@@ -158,7 +158,9 @@ Inductive op :=
 | OCat (r : nat) (srcs : list nat)           (* r := np.concatenate([srcs...]) *)
 | ORep (r f : nat) (vals : list value)       (* r := bnp.replace(r, f=vals) *)
 | OTolist (r : nat)
-| OWrite (r : nat).
+| OWrite (r : nat)
+| OSel (dst src : nat) (ix : index)         (* dst := src[ix]: several selections of one parent table *)
+| OWriteRead (r : nat).                     (* write r unmodified to a file, re-read and decode that file: its rows *)
 
 Inductive obs :=
 | XErr | XOk
@@ -203,6 +205,13 @@ Definition s_step (F : fmt) (hdr : list Z) (regs : list rows) (o : op) : list ro
       | None => (regs, XErr) end
   | OTolist r => match nth_error regs r with Some t => (regs, XRows t) | None => (regs, XErr) end
   | OWrite r => match nth_error regs r with Some t => (regs, XBytes (s_write F hdr t)) | None => (regs, XErr) end
+  | OSel dst src ix =>
+      match nth_error regs dst, nth_error regs src with
+      | Some _, Some t => match resolve (length t) ix with
+                          | Some sel => (set_reg dst (s_index sel t) regs, XOk)
+                          | None => (regs, XErr) end
+      | _, _ => (regs, XErr) end
+  | OWriteRead r => match nth_error regs r with Some t => (regs, XRows t) | None => (regs, XErr) end
   end.
 
 Fixpoint s_run (F : fmt) (hdr : list Z) (regs : list rows) (p : list op) : list obs :=
@@ -429,6 +438,22 @@ Definition m_step (cc : fmt -> list lazy -> option lazy) (F : fmt) (hdr : list Z
       | Some (TLazy l) => (regs, match l_write F hdr l with Some b => XBytes b | None => XErr end)
       | Some (TEager t) => (regs, XBytes (s_write F hdr t))
       | None => (regs, XErr) end
+  | OSel dst src ix =>
+      match nth_error regs dst, nth_error regs src with
+      | Some _, Some t => match resolve (t_len t) ix with
+                          | Some sel => (set_reg dst (match t with TLazy l => TLazy (l_index sel l)
+                                                                 | TEager t => TEager (s_index sel t) end) regs, XOk)
+                          | None => (regs, XErr) end
+      | _, _ => (regs, XErr) end
+  | OWriteRead r =>   (* get_buffer's pass-through of the selected records' raw bytes, decoded field by field; the table itself
+                         is left as it was (0f67f4c: the extractor is no longer re-based in place); a table with replaced
+                         columns is refused by writers without supports_modified_write (the only ones this is used for) *)
+      match nth_error regs r with
+      | Some (TLazy l) => (regs, match l_set l with
+                                 | [] => XRows (rows_of_cols dv (length (l_buf l)) (map (fun f => parse_col F f (l_buf l)) (all_fields F)))
+                                 | _ => XErr end)
+      | Some (TEager t) => (regs, XRows t)
+      | None => (regs, XErr) end
   end.
 
 Fixpoint m_run (cc : fmt -> list lazy -> option lazy) (F : fmt) (hdr : list Z) (regs : list table) (p : list op) : list obs :=
@@ -478,6 +503,10 @@ Definition m_guard (F : fmt) (regs : list table) (o : op) : bool :=
   | OAt r i =>
       match nth_error regs r with
       | Some (TLazy l) => negb (f_ragged F)
+      | _ => true end
+  | OWriteRead r =>
+      match nth_error regs r with
+      | Some (TLazy l) => match l_set l with [] => true | _ => false end
       | _ => true end
   | _ => true
   end.
@@ -535,7 +564,7 @@ Definition e_step (F : fmt) (hdr : list Z) (regs : list etable) (o : op) : list 
   | _ => let '(rs, x) := s_step F hdr (map fst regs) o in
          (* the register an operation assigns holds a derived table: no header context *)
          let ctx := match o, x with
-                    | OIndex r _, XOk | OCat r _, XOk | ORep r _ _, XOk => set_nth r false (map snd regs)
+                    | OIndex r _, XOk | OCat r _, XOk | ORep r _ _, XOk | OSel r _ _, XOk => set_nth r false (map snd regs)
                     | _, _ => map snd regs end in
          (combine rs ctx, x)
   end.
